@@ -19,7 +19,7 @@ const (
 
 // NewWorld prepares the world of a plan.
 func NewWorld(p *Plan) *World {
-	w := &World{P: p, Probes: map[string]int{}}
+	w := &World{P: p, Probes: map[string]int{}, Arrivals: map[int][]uint64{}, byID: map[uint64]*CallRec{}, opIdx: map[int]int{}}
 	w.Net = NewNet(p.Net)
 	currentNet = w.Net
 	w.Servers = make([]*rpc.Server, len(p.Servers))
@@ -61,8 +61,10 @@ func (w *World) RunConnWorld() {
 		if cc.Pipelining {
 			conn.SetPipelining(true)
 		}
-		if cc.DirectIO {
+		if cc.DirectIO || cc.DirectSet == 1 {
 			conn.SetDirectIO(true)
+		} else if cc.DirectSet == 2 {
+			conn.SetDirectIO(false)
 		}
 		if cc.NoCopy {
 			conn.SetNoCopy(true)
@@ -93,6 +95,9 @@ func (w *World) RunConnWorld() {
 		}
 		simrt.ParkTimeout(&w.joinQ, left)
 	}
+	if p.Params["settle"] > 0 {
+		simrt.Sleep(time.Second) // let in-flight messages arrive before the world is torn down
+	}
 	w.teardown()
 }
 
@@ -114,6 +119,7 @@ func (w *World) teardown() {
 	simrt.Sleep(quietGrace)
 	w.collectSignals()
 	w.SimEnd = simrt.Now()
+	w.LiveAtEnd = simrt.Live()
 	for _, c := range w.Calls {
 		if c.errObj != nil {
 			c.ErrAtEnd = c.errObj.Error()
@@ -213,12 +219,15 @@ func (w *World) opDone() {
 }
 
 func (w *World) newCall(ci int, connIdx int, op *Op, form string) *CallRec {
-	c := &CallRec{ID: w.newID(), Client: ci, Conn: connIdx, Form: form, Flags: op.Flags, Arg: op.Arg, Size: op.Size, Rep: op.Rep, Bad: op.Bad}
+	// ids are a function of (client, op index): stable across schedules and configurations
+	w.opIdx[ci]++
+	c := &CallRec{ID: uint64(ci+1)<<16 | uint64(w.opIdx[ci]), Client: ci, Conn: connIdx, Form: form, Flags: op.Flags, Arg: op.Arg, Size: op.Size, Rep: op.Rep, Bad: op.Bad, Timeout: op.Timeout}
 	c.Method = w.methodName(op.Shape)
 	if op.Bad == "method" {
 		c.Method = "Svc.NoSuchMethod"
 	}
 	w.Calls = append(w.Calls, c)
+	w.byID[c.ID] = c
 	return c
 }
 
@@ -370,6 +379,8 @@ func (w *World) runClient(ci int) {
 		return
 	}
 	var outstanding []*CallRec
+	var shared chan *rpc.Call
+	var sharedCalls []*CallRec
 	for oi := range cp.Ops {
 		op := &cp.Ops[oi]
 		switch op.Kind {
@@ -377,6 +388,7 @@ func (w *World) runClient(ci int) {
 			c := w.newCall(ci, cp.Conn, op, "call")
 			args, reply := w.argsAndReply(c)
 			c.NumCallsBefore = int(conn.NumCalls())
+			c.Alone = w.clientsOnConn(cp.Conn) == 1 && len(outstanding) == 0
 			c.Invoke, c.InvokeT = simrt.Seq(), simrt.Now()
 			err := conn.Call(c.Method, args, reply)
 			w.finishBlocking(c, err)
@@ -388,6 +400,49 @@ func (w *World) runClient(ci int) {
 			c.Invoke, c.InvokeT = simrt.Seq(), simrt.Now()
 			c.call = conn.Go(c.Method, args, reply, c.done)
 			outstanding = append(outstanding, c)
+		case "gos":
+			if shared == nil {
+				n := 0
+				for _, o := range cp.Ops {
+					if o.Kind == "gos" {
+						n++
+					}
+				}
+				shared = make(chan *rpc.Call, 2*n+4)
+			}
+			c := w.newCall(ci, cp.Conn, op, "gos")
+			args, reply := w.argsAndReply(c)
+			c.Invoke, c.InvokeT = simrt.Seq(), simrt.Now()
+			c.call = conn.Go(c.Method, args, reply, shared)
+			sharedCalls = append(sharedCalls, c)
+		case "waits":
+			pendingN := 0
+			for _, c := range sharedCalls {
+				if !c.Returned {
+					pendingN++
+				}
+			}
+			for i := 0; i < pendingN; i++ {
+				t := time.NewTimer(asyncGrace)
+				var got *rpc.Call
+				select {
+				case got = <-shared:
+					simrt.YieldKind(simrt.KHarness)
+					t.Stop()
+				case <-t.C:
+					simrt.YieldKind(simrt.KHarness)
+					w.Probe("async-never-signalled")
+				}
+				if got == nil {
+					break
+				}
+				for _, c := range sharedCalls {
+					if c.call == got {
+						w.noteSignal(c, got)
+						w.Arrivals[ci] = append(w.Arrivals[ci], c.ID)
+					}
+				}
+			}
 		case "rt":
 			c := w.newCall(ci, cp.Conn, op, "rt")
 			args, reply := w.argsAndReply(c)
@@ -430,6 +485,10 @@ func (w *World) runClient(ci int) {
 			w.finishBlocking(c, err)
 		case "sleep":
 			simrt.Sleep(time.Duration(op.N) * time.Microsecond)
+		case "spin":
+			for i := 0; i < op.N; i++ {
+				simrt.Gosched()
+			}
 		case "wait":
 			for _, c := range outstanding {
 				w.waitAsync(c)
@@ -442,7 +501,7 @@ func (w *World) runClient(ci int) {
 		case "close":
 			w.Net.fault(FLocalClose)
 			conn.Close()
-		case "sopen", "swrite", "sread", "sclose":
+		case "sopen", "swrite", "sread", "sclose", "safter":
 			w.streamOp(ci, conn, op)
 		}
 		w.opDone()
@@ -518,6 +577,30 @@ func (w *World) streamOp(ci int, conn *rpc.Conn, op *Op) {
 			w.retain(m.Pad, "stream-msg", m.ID)
 			rec.CGot = append(rec.CGot, m.ID)
 		}
+	case "safter":
+		if rec.stream == nil || rec.ClientReadErr == "" {
+			return
+		}
+		var m Msg
+		var arg interface{} = &m
+		out := &Msg{ID: 1, Pad: MakePad(1, 4)}
+		var oarg interface{} = out
+		if w.P.Codec == "pb" {
+			arg = (*PBMsg)(&m)
+			oarg = (*PBMsg)(out)
+		}
+		rec.ClientBlocked = true
+		err := rec.stream.ReadMessage(nil, arg)
+		rec.ClientBlocked = false
+		rec.AfterRead = errKind(err)
+		if err == nil {
+			rec.AfterRead = "nil"
+		}
+		err = rec.stream.WriteMessage(oarg)
+		rec.AfterWrite = errKind(err)
+		if err == nil {
+			rec.AfterWrite = "nil"
+		}
 	case "sclose":
 		if rec.stream == nil {
 			return
@@ -531,3 +614,13 @@ func (w *World) streamOp(ci int, conn *rpc.Conn, op *Op) {
 }
 
 var _ = simsync.ResetPools
+
+func (w *World) clientsOnConn(conn int) int {
+	n := 0
+	for _, c := range w.P.Clients {
+		if c.Conn == conn {
+			n++
+		}
+	}
+	return n
+}
